@@ -41,6 +41,10 @@
 (*     property demands; the other modes are negative controls (models of  *)
 (*     wrong implementations on which TLC must find the invariants         *)
 (*     violated, so that the invariants are known not to be vacuous).      *)
+(*     "TLS peers are authenticated exactly as configured" holds across a  *)
+(*     reload as well: the reload replaces certificate and key, not the    *)
+(*     client CA -> ConfigKept, Authenticated (negative control "dropca":  *)
+(*     a reload that forgets the client CA).                               *)
 (***************************************************************************)
 EXTENDS Naturals, Sequences, FiniteSets
 
@@ -95,22 +99,51 @@ ASSUME Counts ==
   /\ Cardinality({k \in Cases : Expected(k) = {"clientRejects", "serverRejects"}}) = 10
 
 (* ------------------------------ (b) identity reload ------------------------------ *)
-CONSTANT Mode       \* "swap" (the property) | "stale" | "inplace" | "disconnect" (negative controls)
-ASSUME Mode \in {"swap", "stale", "inplace", "disconnect"}
+(* The reload replaces the server's certificate and key ONLY.  Whether the server demands client          *)
+(* certificates (its client CA, --tls-ca) is part of its configuration and a reload keeps it: "peers are   *)
+(* authenticated exactly as configured", before and after a reload.  The machine therefore carries         *)
+(*   wantCA   the client CA the operator configured (never changes)                                        *)
+(*   liveCA   the client CA of the identity a handshake that starts now is served with                     *)
+(* and a handshake of the machine is a cell of the matrix above: the identities are issued by the trusted  *)
+(* CA for the requested name, the client verifies, presents `cc` and the server's client CA is liveCA.     *)
+CONSTANT Mode       \* "swap" (the property) | "stale" | "inplace" | "disconnect" | "dropca" (negative controls)
+ASSUME Mode \in {"swap", "stale", "inplace", "disconnect", "dropca"}
 
 VARIABLES
   identityVersion,  \* the identity the operator installed last (number of reloads so far)
   live,             \* the identity a handshake that starts now is served with
-  conns             \* established connections: born = identityVersion when it handshook, ver = the identity it
-                    \* handshook with, cfg = the identity its session refers to now, alive
+  conns,            \* established connections: born = identityVersion when it handshook, ver = the identity it
+                    \* handshook with, cfg = the identity its session refers to now, alive, cc = the client
+                    \* certificate it presented (would present if asked)
+  wantCA,           \* "configured" | "none": the server's client CA as configured by the operator
+  liveCA            \* the client CA in force for a handshake that starts now
 
-mvars == <<identityVersion, live, conns>>
+mvars == <<identityVersion, live, conns, wantCA, liveCA>>
 
-MInit == identityVersion = 0 /\ live = 0 /\ conns = <<>>
+CAOf(mtls) == IF mtls = TRUE THEN "configured" ELSE "none"
 
-Connect ==
-  /\ conns' = Append(conns, [born |-> identityVersion, ver |-> live, cfg |-> live, alive |-> TRUE])
-  /\ UNCHANGED <<identityVersion, live>>
+MInitWith(ca) == identityVersion = 0 /\ live = 0 /\ conns = <<>> /\ wantCA = ca /\ liveCA = ca
+MInit == MInitWith("none")
+
+\* a handshake of the reload machine as a cell of the matrix
+HandshakeCell(cc, ca) == [serverCert |-> "trustedCA", nameMatches |-> TRUE, skipVerify |-> FALSE,
+                          clientCert |-> cc, serverClientCA |-> ca]
+\* the certificate a client that was set up for this server presents
+RightCert == IF wantCA = "configured" THEN "trustedCA" ELSE "none"
+\* what a handshake presenting cc that starts now must end in (a set, as in the table), and whether it is established
+HandshakeOutcome(cc) == Expected(HandshakeCell(cc, liveCA))
+Admitted(cc) == HandshakeOutcome(cc) = {"ok"}
+
+\* a client presenting cc connects: established iff the table says "ok"; a refused handshake leaves no trace
+ConnectAs(cc) ==
+  /\ cc \in ClientCerts
+  /\ conns' = IF Admitted(cc)
+              THEN Append(conns, [born |-> identityVersion, ver |-> live, cfg |-> live, alive |-> TRUE, cc |-> cc])
+              ELSE conns
+  /\ UNCHANGED <<identityVersion, live, wantCA, liveCA>>
+
+\* the client that was set up for this server connects (always admitted when the configuration is kept)
+Connect == ConnectAs(RightCert)
 
 Reload ==
   /\ identityVersion' = identityVersion + 1
@@ -118,6 +151,9 @@ Reload ==
   /\ conns' = CASE Mode = "inplace"    -> [c \in DOMAIN conns |-> [conns[c] EXCEPT !.cfg = identityVersion + 1]]
                 [] Mode = "disconnect" -> [c \in DOMAIN conns |-> [conns[c] EXCEPT !.alive = FALSE]]
                 [] OTHER               -> conns
+  \* certificate and key are replaced, the rest of the configuration is kept
+  /\ liveCA' = IF Mode = "dropca" THEN "none" ELSE liveCA
+  /\ UNCHANGED wantCA
 
 \* using an established connection changes nothing; what is observed: Works(c), Sees(c)
 Use(c) == c \in DOMAIN conns /\ UNCHANGED mvars
@@ -128,8 +164,14 @@ Sees(c) == conns[c].cfg
 Undisturbed == \A c \in DOMAIN conns : Works(c) /\ Sees(c) = conns[c].ver
 \* a handshake after the reload sees the new identity
 Fresh == \A c \in DOMAIN conns : conns[c].ver = conns[c].born
+\* new handshakes are authenticated as configured, whatever number of reloads happened
+ConfigKept == liveCA = wantCA
+\* every established connection is one the CONFIGURATION admits (observable form of ConfigKept)
+Authenticated == \A c \in DOMAIN conns : ServerAccepts(HandshakeCell(conns[c].cc, wantCA))
 
 MTypeOK ==
   /\ identityVersion \in Nat /\ live \in 0 .. identityVersion
-  /\ \A c \in DOMAIN conns : conns[c].ver \in 0 .. identityVersion /\ conns[c].born \in 0 .. identityVersion
+  /\ wantCA \in ClientCAs /\ liveCA \in ClientCAs
+  /\ \A c \in DOMAIN conns : /\ conns[c].ver \in 0 .. identityVersion /\ conns[c].born \in 0 .. identityVersion
+                             /\ conns[c].cc \in ClientCerts
 =============================================================================
